@@ -1,6 +1,6 @@
 SPECIFICATION Spec
 CONSTANTS
-  N = 7
+  N = 5
   NLen <- cNLenInl
   G <- G1kCsum
   Inline = TRUE
